@@ -211,6 +211,12 @@ pub fn run(ctx: &mut Ctx) {
             if ctx.rng.gen_bool(0.35) {
                 let mut old = gen_case(ctx, None);
                 old.held = c0.held.clone();
+                // half of the time the abandoned request asked for (and was permitted) everything held,
+                // so that whatever it prepared or signed is as visible as possible if it ever leaks
+                if ctx.rng.gen_bool(0.5) {
+                    old.req = c0.held.iter().map(|(d, (_, nss))| (*d, nss.clone())).collect();
+                    old.perm = c0.held.iter().map(|(d, (_, nss))| (*d, nss.clone())).collect();
+                }
                 if !old.req.is_empty() {
                     isomdl::presentation::device::SessionManager::prepare_response(&mut dev, &to_requests(&old), to_permitted(&old));
                     if ctx.rng.gen_bool(0.5) && dev.get_next_signature_payload().is_some() { dev.submit_next_signature(vec![8; 64]).unwrap(); }
